@@ -40,7 +40,7 @@ def _model(flat):
 
 
 KIND_SRC = {"ok": "MOk 2 0", "fail": "MOk 1 0", "syntax": "MBroken", "cycle": "MOk 2 0", "decorated": "MOk 0 1",
-            "gen": "MOk 0 1", "genfail": "MOk 0 1"}
+            "gen": "MOk 0 1", "genfail": "MOk 0 1", "inner": "MOk 1 0"}
 
 
 def session_model(flat, res):
@@ -64,6 +64,7 @@ def run(out, tier, seed, proof):
     seqs = [gen_seq(rng) for _ in range(n)]
     seqs.append([{"kind": "decorated", "kwargs": {"capture": "no"}}, {"kind": "decorated", "kwargs": {"capture": "no"}}])   # F11 witness
     # the same project three times with an in-memory database: nothing is remembered from build to build
+    seqs.append([{"kind": "inner", "kwargs": {"capture": "no"}}, {"kind": "ok", "kwargs": {"capture": "fd"}}, {"kind": "inner", "kwargs": {"capture": "sys", "force": True}}])
     seqs.append([{"kind": "ok", "kwargs": {"capture": "no", "memdb": True}} for _ in range(3)])
     seqs.append([{"kind": "ok", "kwargs": {"capture": "fd", "memdb": True}}, {"kind": "fail", "kwargs": {"capture": "fd", "memdb": True}},
                  {"kind": "ok", "kwargs": {"capture": "fd", "memdb": True}}])
